@@ -504,3 +504,5 @@ func CheckTable(s RawReader, sum []byte) (class, detail string) {
 	}
 	return "", ""
 }
+
+func newMeow() *meow.Digest { return meow.New(0) }
